@@ -218,3 +218,113 @@ func VH_C10_flat() {
 	}
 	vLog("n", r.n)
 }
+
+// A symbolic inner table: the inner flow has two probes whose four (node, action) slots are each
+// unconnected or connected to nil / q0 / q1 (targets lazily symbolic); the outer flow routes the
+// inner flow's final action to p1 (default) or p2 ("b") or ends. A flattened reference machine is
+// stepped in lock-step inside the probes.
+type c10SymMon struct {
+	store    *SharedStore
+	expected int // probe id that must run next, -1 = the whole arrangement has ended
+	ref      [2][2]int // inner table: -2 unconnected, -1 nil, 0/1 = q0/q1
+	visits   int
+}
+
+type c10SymProbe struct {
+	id int // 0 p0, 1 p1, 2 p2, 10 q0, 11 q1
+	m  *c10SymMon
+}
+
+func (p *c10SymProbe) Prep(ctx context.Context, s *SharedStore) (any, error) {
+	m := p.m
+	vAssert(s == m.store, "inner-node-sees-the-parents-store")
+	vAssert(m.expected == p.id, "visit-order-equals-flattened-machine")
+	m.visits++
+	vAssume(m.visits <= vParam("V", 6))
+	return nil, nil
+}
+func (p *c10SymProbe) Exec(ctx context.Context, x any) (any, error) { return nil, nil }
+func (p *c10SymProbe) Post(ctx context.Context, s *SharedStore, x, e any) (Action, error) {
+	m := p.m
+	a := vNondet[Action]("act")
+	j := -1
+	if a == "" || a == DefaultAction {
+		j = 0
+	} else if a == "b" {
+		j = 1
+	}
+	// where does the flattened machine go after this probe returned a?
+	outer := func() int { // the inner flow ended with (normalised) action index j
+		switch j {
+		case 0:
+			return 1
+		case 1:
+			return 2
+		}
+		return -1
+	}
+	switch p.id {
+	case 0:
+		if j == 0 {
+			m.expected = 10
+		} else {
+			m.expected = -1
+		}
+	case 1, 2:
+		m.expected = -1
+	default:
+		q := p.id - 10
+		if j < 0 {
+			vCover("inner-ends-on-foreign-action")
+			m.expected = -1 // unconnected in the inner flow, and the outer flow has no edge for it either
+		} else {
+			r := m.ref[q][j]
+			if r == -2 {
+				vCover("inner-ends-unconnected")
+				m.expected = outer()
+			} else if r == -1 {
+				vCover("inner-ends-nil")
+				m.expected = outer()
+			} else {
+				m.expected = 10 + r
+			}
+		}
+	}
+	return a, nil
+}
+
+func VH_C10_symbolic() {
+	vUnwind(12)
+	m := &c10SymMon{store: NewSharedStore()}
+	p0 := &c10SymProbe{id: 0, m: m}
+	p1 := &c10SymProbe{id: 1, m: m}
+	p2 := &c10SymProbe{id: 2, m: m}
+	q := [2]*c10SymProbe{{id: 10, m: m}, {id: 11, m: m}}
+	targets := []any{Node(nil), Node(q[0]), Node(q[1])}
+	acts := [2]Action{DefaultAction, "b"}
+	inner := NewFlow(q[0])
+	for i := 0; i < 2; i++ {
+		for j := 0; j < 2; j++ {
+			m.ref[i][j] = -2
+			if vNondet[bool]("connected") {
+				t := vNondet[int]("target")
+				vAssume(0 <= t && t <= 2)
+				inner.Connect(q[i], acts[j], asNode(vPick(t, targets...)))
+				m.ref[i][j] = t - 1
+			}
+		}
+	}
+	depth := vParam("depth", 2)
+	var in Node = inner
+	for d := 2; d < depth; d++ {
+		in = NewFlow(in)
+	}
+	outer := NewFlow(p0)
+	outer.Connect(p0, DefaultAction, in).Connect(in, DefaultAction, p1).Connect(in, "b", p2)
+	m.expected = 0
+	err := outer.Run(vNewCtx(), m.store)
+	vAssert(err != nil || m.expected == -1, "flow-does-not-stop-before-the-flattened-machine-ends")
+	if m.visits >= 3 {
+		vCover("outer-continued-after-inner")
+	}
+}
